@@ -175,6 +175,31 @@ impl MakeOperators<i64> for IntOps {
     }
 }
 
+/// `fact` of the value type for every argument it supports, against the exact factorials; run
+/// by all threads at once right after the cold start and again sequentially at the end
+fn factorials(who: &str) -> Vec<String> {
+    let mut problems = vec![];
+    let e64 = exmex::parse_val::<i64, f64>("fact(x)");
+    let e32 = exmex::parse_val::<i32, f64>("fact(x)+0");
+    let (Ok(e64), Ok(e32)) = (e64, e32) else { return vec![format!("{who}: fact(x) does not parse")] };
+    let mut f: i64 = 1;
+    for n in 1..=20i64 {
+        f *= n;
+        match e64.eval(&[Val::Int(n)]) {
+            Ok(Val::Int(g)) if g == f => {}
+            other => problems.push(format!("{who}: fact({n}) over Val<i64, f64> gives {other:?}, expected {f}")),
+        }
+        if n <= 12 {
+            match e32.eval(&[Val::Int(n as i32)]) {
+                Ok(Val::Int(g)) if g as i64 == f => {}
+                other => problems.push(format!("{who}: fact({n})+0 over Val<i32, f64> gives {other:?}, expected {f}")),
+            }
+        }
+    }
+    problems.truncate(3);
+    problems
+}
+
 /// Texts whose acceptance could depend on per-process state (literal spellings at the edge of the
 /// grammar) through every data type: the outcome (Ok + value, or Err) is part of the digest that
 /// must be the same in every process, whatever thread and data type came first.
@@ -303,8 +328,9 @@ fn main() {
                 let first = FlatEx::<f64>::parse(texts[t % texts.len()]).expect("parse");
                 let my_ticket = ticket.fetch_add(1, Ordering::SeqCst);
                 order.lock().unwrap()[my_ticket] = t;
+                let fact_problems = if lenient { vec![] } else { factorials(&format!("thread {t} at the cold start")) };
                 let all = parse_all(texts, val_texts);
-                (first, all)
+                (first, all, fact_problems)
             })
             .expect("spawn")
         })
@@ -312,7 +338,7 @@ fn main() {
     let results: Vec<_> = handles.into_iter().map(|h| h.join().expect("thread panicked")).collect();
 
     // phase B: share thread 0's expressions and evaluate concurrently
-    let (_, (flats, deeps, vals, parsed0)) = results[0].clone();
+    let (_, (flats, deeps, vals, parsed0), _) = results[0].clone();
     let shared = Arc::new((flats, deeps, vals));
     let before = format!("{:?}{:?}{:?}", shared.0, shared.1, shared.2);
     let barrier = Arc::new(Barrier::new(threads));
@@ -376,7 +402,8 @@ fn main() {
     // sequential reference, made afterwards on one thread
     let (sflats, sdeeps, svals, sparsed) = parse_all(texts, val_texts);
     let mut problems: Vec<String> = vec![];
-    for (t, (first, (f, d, _v, p))) in results.iter().enumerate() {
+    for (t, (first, (f, d, _v, p), fact_problems)) in results.iter().enumerate() {
+        problems.extend(fact_problems.iter().cloned());
         if *p != sparsed || *p != parsed0 {
             problems.push(format!("thread {t}: concurrently parsed expressions differ from the sequentially parsed ones"));
         }
@@ -389,6 +416,9 @@ fn main() {
     }
     problems.extend(custom_problems);
     problems.extend(storm_problems);
+    if !lenient {
+        problems.extend(factorials("sequential run at the end"));
+    }
     let probe_outcomes = if lenient { String::new() } else { probes() };
     if !lenient {
         problems.extend(panic_history(threads));
